@@ -16,6 +16,12 @@ CAP = None        # quick tier: (first n, last m) dynamic occurrences of each li
 def prepare(_):
     """runs in a throw-away process: derive the constants of the menu with the library itself"""
     import a5
+    import copy
+    from a5.core import cell as _cell0
+    try:
+        _PRISTINE = {'dodecahedron': copy.deepcopy(vars(_cell0._dodecahedron))}     # before the first library call of this process
+    except Exception:
+        _PRISTINE = {}
     from a5.core.origin import origins
     from a5.core.coordinate_transforms import to_cartesian, to_spherical, to_lonlat
     # a face-edge midpoint: normalised sum of two adjacent face centres (faces 3 and its nearest neighbour)
@@ -38,16 +44,21 @@ def prepare(_):
     from a5.core import cell as _cell
 
     def touched(fn):
+        # the lazily filled state of the projection object is put back to its import-time value (a deep copy taken before the first
+        # library call of this process: no assumption about which caches exist or what shape they have), then fn runs and the filled
+        # slots are read off; if the object cannot be restored or read this way the search degrades to the default constants below
         d = _cell._dodecahedron
         try:
-            d.face_triangles = []
-            d.spherical_triangles = []
-            d.polyhedral._inverse_triangle_cache = {}
+            vars(d).clear()
+            vars(d).update(copy.deepcopy(_PRISTINE['dodecahedron']))
         except Exception:
             return frozenset()
         fn()
-        ft = {('face', i) for i, t in enumerate(d.face_triangles) if t is not None}
-        st = {('sph', i) for i, t in enumerate(d.spherical_triangles) if t is not None}
+        try:
+            ft = {('face', i) for i, t in enumerate(d.face_triangles) if t is not None}
+            st = {('sph', i) for i, t in enumerate(d.spherical_triangles) if t is not None}
+        except Exception:
+            return frozenset()
         return frozenset(ft | st)
 
     def reflected(slots):
